@@ -203,6 +203,105 @@ def _encode_batch(items):
     return out
 
 
+
+# ---------------------------------------------------------------------------------------------------
+# the command line entry point `bits bech32` (harness/cli.py runs bits.__main__.main() in the worker)
+# ---------------------------------------------------------------------------------------------------
+NET_HRP = {"mainnet": b"bc", "testnet": b"tb", "regtest": b"bcrt"}
+
+
+def _cli_refused(r):
+    rc = r["rc"]
+    return r["exc"] is not None or (isinstance(rc, str) and rc.startswith("ERROR")) or (isinstance(rc, int) and rc != 0)
+
+
+def _cli_raise(r):
+    """the command refused: re-raise the class of the exception that ended it (so that the worker reports the same
+    error kind a library call would); a refusal that wrote to stdout is a value no model result can equal"""
+    import builtins
+    if r["out"]:
+        return "REFUSED-BUT-WROTE-OUTPUT rc=%r out=%r" % (r["rc"], r["out"][:200])
+    name = r["exc"] or "RuntimeError"
+    klass = getattr(builtins, name, None)
+    if not (isinstance(klass, type) and issubclass(klass, BaseException)) or name == "SystemExit":
+        klass = RuntimeError
+    raise klass("bits bech32: rc=%r %s" % (r["rc"], r["err"][-200:]))
+
+
+def _cli_decode_report(s, extra):
+    """-> ("segwit", hrp, version, program) | ("bech32", hrp, payload) | raises | a "MALFORMED..." string"""
+    import json
+    import cli
+    r = cli.run_main(["bech32", "--decode"] + list(extra), stdin=s)
+    if _cli_refused(r):
+        return _cli_raise(r)
+    try:
+        d = json.loads(r["out"].decode("utf-8"))
+    except Exception:
+        return "MALFORMED-OUTPUT %r" % (r["out"][:200],)
+    if not r["out"].endswith(b"\n") or r["out"].count(b"\n") != 1:
+        return "MALFORMED-OUTPUT %r" % (r["out"][:200],)
+    if isinstance(d, dict) and set(d) == {"network", "witness_version", "witness_program"}:
+        if d["network"] not in NET_HRP or not isinstance(d["witness_version"], int) or isinstance(d["witness_version"], bool):
+            return "MALFORMED-OUTPUT %r" % (r["out"][:200],)
+        try:
+            return ("segwit", NET_HRP[d["network"]], d["witness_version"], bytes.fromhex(d["witness_program"]))
+        except Exception:
+            return "MALFORMED-OUTPUT %r" % (r["out"][:200],)
+    if isinstance(d, dict) and set(d) == {"hrp", "payload"}:
+        try:
+            return ("bech32", d["hrp"].encode("utf-8"), bytes.fromhex(d["payload"]))
+        except Exception:
+            return "MALFORMED-OUTPUT %r" % (r["out"][:200],)
+    return "MALFORMED-OUTPUT %r" % (r["out"][:200],)
+
+
+def _cli_segwit(s, extra):
+    """what `bits bech32 --decode` REPORTS AS A SEGWIT ADDRESS: (hrp, version, program), or None when it refuses
+    (error, nothing on stdout) or answers with the generic Bech32 form (hrp/payload)"""
+    try:
+        v = _cli_decode_report(s, extra)
+    except BaseException as e:  # noqa
+        if type(e).__name__ == "CaseTimeout":
+            raise
+        return None
+    if isinstance(v, tuple) and v[0] == "segwit":
+        return v[1:]
+    if isinstance(v, tuple) and v[0] == "bech32":
+        return None
+    return v
+
+
+def _cli_stdin(data, fmt):
+    if fmt == "raw":
+        return ["-1"], data
+    if fmt == "raw-explicit":
+        return ["-1", "raw"], data
+    if fmt == "hex":
+        return ["-1", "hex"], data.hex().encode() + b"\n"
+    if fmt == "hex-default":
+        return [], data.hex().encode()
+    if fmt == "x":
+        return ["-1", "x"], b"  " + data.hex().upper().encode() + b"\n"
+    if fmt == "bin":
+        return ["-1", "bin"], "".join("{:08b}".format(x) for x in data).encode() + b"\n"
+    raise ValueError(fmt)
+
+
+def _cli_encode(hrp, data, wv, pr, fmt):
+    import cli
+    fl, stdin = _cli_stdin(data, fmt)
+    argv = ["bech32", "--hrp", hrp.decode("ascii")]
+    if wv is not None:
+        argv += ["--wv" if wv % 2 else "--witness-version", str(wv)]
+    if pr:
+        argv += ["-P"]
+    r = cli.run_main(argv + fl, stdin=stdin)
+    if _cli_refused(r):
+        return _cli_raise(r)
+    return r["out"]
+
+
 IMPL = {
     "segwit_addr": lambda d, v, n: _u().segwit_addr(d, witness_version=v, network=n),
     "to_bitcoin_address_witness": lambda d, n, v: _u().to_bitcoin_address(d, network=n, witness_version=v),
@@ -225,6 +324,33 @@ IMPL = {
     "bech32_verify_checksum": lambda h, d, c: _b().bech32_verify_checksum([bytes([x]) for x in h], d, constant=c),
     "classify_batch": _classify_batch,
     "encode_batch": _encode_batch,
+    # `bits bech32` through bits.__main__.main()
+    "cli_bech32_segwit": _cli_segwit,
+    "cli_bech32_decode": _cli_decode_report,
+    "cli_bech32_encode": _cli_encode,
+    "cli_bech32_segwit_addr": lambda d, v, n, fmt: _cli_encode(NET_HRP[n], d, v, False, fmt),
+}
+
+
+def model_call(c):
+    """the command line ops are compared with the model ops of the library functions / of __main__'s bech32 branch"""
+    op, a = c["op"], c["args"]
+    if op == "cli_bech32_segwit":
+        return ("c06_spec_decode", [a[0]])          # reported as a segwit address <=> valid per BIP173/BIP350
+    if op == "cli_bech32_decode":
+        return ("c06_cli_bech32_decode", [a[0]])
+    if op == "cli_bech32_encode":
+        return ("c06_cli_bech32_encode", list(a[:4]))
+    if op == "cli_bech32_segwit_addr":
+        return ("c06_segwit_addr", list(a[:3]))     # the encoder must equal segwit_addr
+    return ("c06_" + op, a)
+
+
+# KNOWN_FINDINGS.txt matchers
+KNOWN = {
+    # `bits bech32 --hrp H --wv V` never passes the Bech32m constant: for V >= 1 it differs from segwit_addr
+    "cli-bech32-encode-v1plus": lambda c: c["op"] == "cli_bech32_segwit_addr" and isinstance(c["args"][1], int)
+    and c["args"][1] >= 1,
 }
 
 
@@ -509,6 +635,61 @@ def gen_cases(rng, tier):
     for i in range(0, len(allstr), 200):
         out.append(case("classify-batch", "classify_batch", allstr[i:i + 200]))
 
+
+    # ---------------- the command line entry point `bits bech32` ----------------
+    focus = {"valid", "upper-all", "bip-vector", "roundtrip-valid", "len-forbidden", "len-allowed", "const-swap", "const-other",
+             "pad-nonzero", "pad-nonzero-low", "pad-overlong", "pad-overlong2", "data-checksum-only", "data-version-only",
+             "data-short", "version-17-31", "hrp-wrong", "struct-fixed", "no-letters", "case-flip1", "case-upper-hrp",
+             "case-upper-data", "extend-space", "subst1", "verpos-rechecksum", "base58check-valid"}
+    cli_strs = [("cli-forbidden-length", b"bc1pw5dgrnzv"),                                 # v1, 1 byte
+                ("cli-forbidden-length", b"BC1QR508D6QEJXTDG4Y5R3ZARVARYV98GJ9P"),         # v0, 16 bytes
+                ("cli-forbidden-length", raw_encode("bc", [1] + _vals(bytes(range(41))), BECH32M)),
+                ("cli-forbidden-length", raw_encode("tb", [0] + _vals(bytes(16)), BECH32)),
+                ("cli-forbidden-length", raw_encode("bcrt", [16] + _vals(b"\x01"), BECH32M)),
+                ("cli-forbidden-length", raw_encode("bc", [0] + _vals(bytes(33)), BECH32)),
+                ("cli-forbidden-length", raw_encode("bc", [2] + _vals(bytes(45)), BECH32M)),
+                ("cli-generic-bech32", b"abcdef1qpzry9x8gf2tvdw0s3jn54khce6mua7lmqqqxw"),
+                ("cli-generic-bech32", b"a12uel5l"), ("cli-generic-bech32", b"A1LQFN3A"),
+                ("cli-trailing-newline", VEC_VALID[1] + b"\n"), ("cli-trailing-newline", VEC_VALID[0] + b"\r\n")]
+    # invalid segwit strings with a valid Bech32 checksum whose GENERIC conversion succeeds (the hrp/payload answer)
+    for h in ("bc", "tb", "bcrt"):
+        for n in (3, 8, 13, 18, 23):
+            cli_strs.append(("cli-generic-fallback", raw_encode(h, [0] + _vals(rng.randbytes(n))[:-1] + [0], BECH32)))
+            cli_strs.append(("cli-generic-fallback", raw_encode(h, _vals(rng.randbytes(n + 2)), BECH32)))
+    cnt = {}
+    for cls, s_ in uniq:
+        k = cnt.get(cls, 0)
+        lim = ((60 if cls in focus else 8) if T else (5 if cls in focus else 1))
+        if k < lim:
+            cnt[cls] = k + 1
+            cli_strs.append(("cli-" + cls, s_))
+    variants = [[], ["-P"], ["-1", "hex"], ["-0", "raw"], ["-L", "debug"], ["-1", "hex", "-0", "bin", "-P"]]
+    for i, (cls, s_) in enumerate(cli_strs):
+        extra = variants[i % len(variants)] if i % 3 == 0 else []
+        out.append(case(cls, "cli_bech32_segwit", s_, extra))
+        out.append(case(cls, "cli_bech32_decode", s_, extra, strict=True))
+    fmts = ["raw", "hex", "bin", "hex-default", "x", "raw-explicit"]
+    i = 0
+    for net in NETS:
+        for v in range(17):
+            lens = [20, 32] if v == 0 else ([2, 3, 20, 32, 33, 40] if T else [2, 32, rng.choice([3, 20, 39, 40])])
+            for n in lens:
+                d = _contents(rng, n, rng.choice(["rand", "zero", "ones", "lowbit"]))
+                fmt = fmts[i % len(fmts)]
+                i += 1
+                out.append(case("cli-enc-segwit-v0" if v == 0 else "cli-enc-segwit-v1plus", "cli_bech32_segwit_addr", d, v, net, fmt,
+                                strict=True))
+                out.append(case("cli-enc", "cli_bech32_encode", NET_HRP[net], d, v, i % 5 == 0, fmt, strict=True))
+    for (h, d, wv, pr, fmt) in [(b"bc", b"", None, False, "raw"), (b"bc", b"", 0, False, "hex"), (b"bc", b"", None, True, "bin"),
+                                (b"a", b"\x00", None, False, "raw"), (b"split", rng.randbytes(30), None, True, "hex"),
+                                (b"bc", rng.randbytes(20), 17, False, "raw"), (b"bc", rng.randbytes(20), 31, False, "hex"),
+                                (b"bc", rng.randbytes(20), 32, False, "raw"), (b"bc", rng.randbytes(20), 100, False, "raw"),
+                                (b"bc", rng.randbytes(86), 0, False, "raw"), (b"bc", rng.randbytes(87), 0, False, "raw"),
+                                (b"bc", rng.randbytes(87), None, False, "hex"), (b"bc", rng.randbytes(88), None, False, "raw"),
+                                (b"a" * 83, b"", None, False, "raw"), (b"a" * 84, b"", None, False, "raw"),
+                                (b"BC", rng.randbytes(20), 0, False, "raw"), (b"b~", rng.randbytes(5), 3, True, "x")]:
+        out.append(case("cli-enc-edge", "cli_bech32_encode", h, d, wv, pr, fmt, strict=True))
+
     # ---------------- volume: random mutants of valid addresses, in batches ----------------
     nmut = 120000 if T else 8000
     batch = []
@@ -611,7 +792,8 @@ def shrink(c):
                 yield c2
         return
     if isinstance(a0, (bytes, bytearray)) and c["op"] not in ("segwit_addr", "to_bitcoin_address_witness", "bech32_encode",
-                                                              "bech32_create_checksum", "bech32_verify_checksum"):
+                                                              "bech32_create_checksum", "bech32_verify_checksum",
+                                                              "cli_bech32_encode", "cli_bech32_segwit_addr"):
         for b in shrink_bytes(a0):
             c2 = dict(c)
             c2["args"] = [b] + list(c["args"][1:])
@@ -760,7 +942,71 @@ def _check_intermediate(u, op, a):
     return None
 
 
+def _check_cli_decode(u, s, extra):
+    """`bits bech32 --decode` reports a segwit address exactly for BIP173/BIP350-valid strings, with their triple;
+    a refusal leaves stdout empty; the library on the same string must satisfy the property as well"""
+    r = _check_string(u, s)
+    if r:
+        return r
+    exp = ref_decode(s)
+    got = _cli_segwit(s, extra)
+    if isinstance(got, str):
+        return "bits bech32 --decode on %r: %s" % (s, got)
+    if got is not None:
+        got = (bytes(got[0]), got[1], bytes(got[2]))
+    if got != exp:
+        return ("`bits bech32 --decode` reports %r as segwit address %r; BIP173/BIP350 (and decode_segwit_addr + "
+                "assert_valid_segwit) give %r" % (s, got, exp))
+    if exp is None and _has_letter(s):
+        # not a segwit address: the command answers with the generic Bech32 (constant 1) decoding, or refuses
+        rb = ref_bech32(s, BECH32)
+        want = None
+        if rb is not None and rb[1]:
+            cv = _convertbits(rb[1], 5, 8, False)
+            want = None if cv is None else ("bech32", rb[0], bytes(cv))
+        try:
+            full = _cli_decode_report(s, extra)
+        except BaseException as e:  # noqa
+            if type(e).__name__ == "CaseTimeout":
+                raise
+            full = None
+        if isinstance(full, tuple):
+            full = tuple(bytes(x) if isinstance(x, (bytes, bytearray)) else x for x in full)
+        if full != want:
+            return "`bits bech32 --decode` answers %r on %r; the generic Bech32 decoding of BIP173 is %r" % (full, s, want)
+    return None
+
+
+def _check_cli_encode(u, hrp, d, wv, pr, fmt):
+    try:
+        out = _cli_encode(hrp, d, wv, pr, fmt)
+    except BaseException as e:  # noqa
+        if wv is not None and hrp in NET_HRP.values() and prog_allowed(wv, len(d)):
+            return "bits bech32 --hrp %s --wv %d refused an allowed %d-byte program (%s)" % (hrp.decode(), wv, len(d), type(e).__name__)
+        return None
+    if isinstance(out, str):
+        return out
+    tail = b"\n" if pr else b""
+    if wv is None:
+        if len(hrp) + 1 + (8 * len(d) + 4) // 5 + 6 <= 90 and out != raw_encode(hrp.decode("latin-1"), _vals(d), BECH32) + tail:
+            return "bits bech32 --hrp output %r is not the Bech32 encoding of the data" % (out,)
+        return None
+    if hrp in NET_HRP.values() and prog_allowed(wv, len(d)):
+        want = ref_encode(hrp.decode(), wv, d) + tail
+        if out != want:
+            return ("`bits bech32 --hrp %s --wv %d` on %s gives %r; segwit_addr / BIP173+BIP350 give %r (is_segwit_addr "
+                    "of the output: %r)" % (hrp.decode(), wv, d.hex(), out, want, u.is_segwit_addr(out[:len(out) - len(tail)])))
+    return None
+
+
 def prop_oracle(c):
+    if c["op"] in ("cli_bech32_segwit", "cli_bech32_decode"):
+        return _check_cli_decode(_u(), c["args"][0], c["args"][1])
+    if c["op"] == "cli_bech32_encode":
+        return _check_cli_encode(_u(), *c["args"])
+    if c["op"] == "cli_bech32_segwit_addr":
+        d, v, n, fmt = c["args"]
+        return _check_encode(_u(), d, v, n) or _check_cli_encode(_u(), NET_HRP[n], d, v, False, fmt)
     u = _u()
     op = c["op"]
     a = c["args"]
@@ -892,8 +1138,12 @@ def _coq_triple_result(mr):
 def coq_equation(c, mr):
     op = c["op"]
     a = c["args"]
-    if op in ("classify_batch", "encode_batch"):
+    if op in ("classify_batch", "encode_batch", "cli_bech32_decode", "cli_bech32_encode"):
         return None
+    if op == "cli_bech32_segwit":
+        op = "spec_decode"
+    if op == "cli_bech32_segwit_addr":
+        op, a = "segwit_addr", a[:3]
     if isinstance(a[0], (bytes, bytearray)) and len(a[0]) > 100:
         return None
     if op in ("decode_valid", "decode_segwit_addr"):
